@@ -405,7 +405,9 @@ fn figure_out_files<Ns>(mappings: &Mappings<2, Ns>) -> Result<Placement<'_>> {
 		let file_name = dst.unwrap_or(src.as_inner());
 		let file_name = file_name.as_str()
 			.with_context(|| anyhow!("unmatched surrogates in class name for creating file name: {file_name:?}"))?;
-		file_map.insert(file_name, Node { src, class });
+		if let Some(other) = file_map.insert(file_name, Node { src, class }) {
+			bail!("classes {:?} and {src:?} would both be written to the file {file_name:?}", other.src);
+		}
 	}
 
 	// maps can only contain one key each, not two equal keys
